@@ -2,6 +2,7 @@ import CheetahModel.Proofs.Tables
 import CheetahModel.Proofs.TextProofs
 import CheetahModel.Proofs.NxProofs
 import CheetahModel.Proofs.NamelistProofs
+import CheetahModel.Proofs.NamelistElem
 /-!
 # C13 — imported lattices mean what the lattice file says
 
@@ -117,6 +118,18 @@ theorem statement_assign_property_once (c c' : Nml.Ctx) (wild : Option String) (
       (∀ k, k ∉ (match wild with | some etype => Nml.resolve c etype name | none => [name]) →
           Nml.lookup c' k = Nml.lookup c k) :=
   Nml.assign_property_once c c' wild name prop e h
+
+/-- **element definition** (`name: type-or-parent, k₁ = e₁, …`): `name` is bound to a dictionary of the parent's element type
+(or of the named type, when no element of that name exists) whose properties are the parent's — copied, not shared —
+overridden by the statement's assignments (the last one per key), each evaluated in the context before the statement; no other
+name changes -/
+theorem statement_define_element (c c' : Nml.Ctx) (name etype : String) (props : List (String × Nml.Ex))
+    (h : Nml.step c (.defElem name etype props) = some c') :
+    ∃ t base q, ((Nml.lookup c etype = some (.elem t base)) ∨ (Nml.lookup c etype = none ∧ t = etype ∧ base = [])) ∧
+      Nml.lookup c' name = some (.elem t q) ∧
+      (∀ k, Nml.getProp q k = (match Nml.lastB props k with | some e => Nml.eval c e | none => Nml.getProp base k)) ∧
+      (∀ x, x ≠ name → Nml.lookup c' x = Nml.lookup c x) :=
+  Nml.define_element_spec c c' name etype props h
 
 /-- **the last `use` of a file names the lattice**, whatever came before -/
 theorem statement_last_use_wins (c c' : Nml.Ctx) (ss : List Nml.Stmt) (n : String)
